@@ -260,6 +260,24 @@ pub fn gen_tamper(thorough: bool, rng: &mut Rng, only_pred: bool) -> Result<(), 
         let mut impl0 = out_bool_json(&v0);
         impl0["oracles"] = if matches!(v0, Out::Ok(true)) { json!([]) } else { json!([{"name":"honest_proof_verifies","ok":false,"detail":format!("untouched proof not accepted: {} {}", v0.tag(), v0.msg())}]) };
         emit(&verify_case(&format!("tamper/{}/base", s), &pool, &sc, &base, &nonce_dec, impl0, json!({"alteration":"none"})));
+        // the proof made for nonce N shown under N + 2^80, N + 2^88, N + 2^128, N + 2^255: every byte of the
+        // nonce is bound, also beyond the 80 bits the library's own nonces have (seventh seeding round: only the
+        // low ten bytes were hashed)
+        if !only_pred {
+            for bits in [80usize, 88, 128, 255] {
+                let shift = bn::BigNumber::from_hex(&format!("{}{}", ["1", "2", "4", "8"][bits % 4], "0".repeat(bits / 4))).map_err(|e| e.to_string())?;
+                let n2 = sc.nonce.add(&shift).map_err(|e| e.to_string())?;
+                let res = verify(&pool, &sc, &proof, &n2);
+                let mut oracles = vec![];
+                if matches!(res, Out::Ok(true)) {
+                    oracles.push(json!({"name":"altered_proof_rejected","ok":false,"detail":format!("proof made for nonce {} accepted after alteration 'nonce+2^{}'", nonce_dec, bits)}));
+                }
+                let mut implv = out_bool_json(&res);
+                implv["oracles"] = json!(oracles);
+                emit(&verify_case(&format!("tamper/{}/nonce-shift-{}", s, bits), &pool, &sc, &base, &n2.to_dec().unwrap_or_default(), implv,
+                    json!({"alteration": "nonce+2^k", "ncred": sc.held.len()})));
+            }
+        }
         for alt in alterations(&base, rng, thorough) {
             if only_pred && !(alt.name.starts_with("ne") || alt.name.starts_with("eq.m[") || alt.name.starts_with("eq.m ")) {
                 continue;
@@ -327,6 +345,42 @@ pub fn gen_tamper(thorough: bool, rng: &mut Rng, only_pred: bool) -> Result<(), 
                 }
             }
         }
+    }
+    // a predicate proven about ANOTHER credential than the one the verifier asked about: two credentials of one
+    // definition, age 17 and age 30; the verifier asks "age >= 18" of the first, the holder attaches the predicate
+    // proof to the second (seventh seeding round: predicates compared over the whole proof, not per sub-proof)
+    for (m, (lo, hi, th, pt)) in [(17i64, 30i64, 18i32, "GE"), (65, 40, 50, "LE"), (i32::MIN as i64, 5, 0, "GT")].iter().enumerate() {
+        let link = dec_of_hex(&rng.hex_bits(255));
+        let mut held = vec![];
+        for age in [*lo, *hi] {
+            let mut h = hold(&pool, "gvt_rev", &link, rng)?;
+            h.known.insert("age".into(), age.to_string());
+            h.cred = issue(pool.get("gvt_rev"), &h.known, &h.hidden, "p", None)?;
+            held.push(h);
+        }
+        let with_pred = ReqSpec { revealed: vec!["name".to_string()], predicates: vec![PredSpec { attr: "age".into(), ptype: (*pt).into(), value: *th }] };
+        let without = ReqSpec { revealed: vec!["name".to_string()], predicates: vec![] };
+        // what the holder proves: the predicate on the SECOND credential (true of it)
+        let sc = Scenario { held, reqs: vec![without.clone(), with_pred.clone()], common: vec!["master_secret".to_string()], nonce: new_nonce().map_err(|e| e.to_string())? };
+        let (_adds, proof) = prove(&pool, &sc);
+        let proof = match proof {
+            Out::Ok(p) => p,
+            o => return Err(format!("tamper: misplaced-predicate proof could not be built: {} {}", o.tag(), o.msg())),
+        };
+        // what the verifier asked: the predicate on the FIRST credential (false of it)
+        let reqs_v = vec![with_pred, without];
+        let res = verify_reqs(&pool, &sc, &reqs_v, &proof, &sc.nonce);
+        let mut oracles = vec![];
+        if matches!(res, Out::Ok(true)) {
+            oracles.push(json!({"name":"altered_proof_rejected","ok":false,"detail":format!("ne proof placed on another sub-proof accepted: the verifier asked age {} {} of the credential holding {}, the predicate proof is attached to the credential holding {}", pt, th, lo, hi)}));
+        }
+        if matches!(res, Out::Panic(_)) {
+            oracles.push(json!({"name":"verify_no_panic","ok":false,"detail":format!("verify panicked on a misplaced predicate: {}", res.msg())}));
+        }
+        let mut implv = out_bool_json(&res);
+        implv["oracles"] = json!(oracles);
+        emit(&verify_case_reqs(&format!("tamper/misplaced-predicate/{}", m), &pool, &sc, &reqs_v, &jv(&proof), &sc.nonce.to_dec().unwrap_or_default(), implv,
+            json!({"alteration": "ne placed on another sub-proof", "ncred": 2})));
     }
     Ok(())
 }
